@@ -64,6 +64,10 @@ def run(ctx):
     blocksfam.run_oracle(ctx)
     inlinefam.run_oracle(ctx)
     fullfam.validate_model(ctx)
+    # the two models of "document -> HTML" check each other: Full.Model(Markdown(doc, ch)).html = Denote(doc, ch), by TLC
+    xplan = ([(2, 2, "inline", "default"), (3, 2, "structure", "single"), (2, 2, "code", "single")] if ctx.tier == "quick"
+             else [(2, 2, "inline", "single"), (4, 2, "structure", "single"), (3, 2, "code", "single")])
+    ctx.extra["doc_and_full_models_agree_on_documents"] = fullfam.doc_crosscheck(ctx, xplan, "c06", doc_cfg)
     fullfam.run_oracle(ctx)
     run_emphasis(ctx)
     ctx.exhaustive = True
